@@ -20,6 +20,13 @@ def _gen(case):
         # ... next to a second sub-package, so that the API package itself (acme.call.v1) holds no service at all
         api['files'].append(dict(name='acme/call/v1/resources/extra.proto', package=callrun.PKG + '.resources',
                                  messages=[dict(name='Extra', fields=[dict(name='name')])]))
+    if case.get('layout') == 'mixed':
+        # the service of the settings stays in the API package; a second service lives in the sub-package <pkg>.admin
+        P = callrun.PKG + '.admin'
+        api['files'].append(dict(name='acme/call/v1/admin/admin.proto', package=P, messages=[dict(name='ResetRequest', fields=[dict(name='name')])],
+                                 services=[dict(name='Admin', methods=[{'name': 'Reset', 'in': f'.{P}.ResetRequest', 'out': f'.{P}.ResetRequest',
+                                                                        'http': [{'verb': 'post', 'uri': '/v1/admin:reset', 'body': '*'}],
+                                                                        'sigs': [], 'cs': False, 'ss': False}])]))
     ms = []
     for e in case['settings']:
         ent = {'selector': f"{pkg}.Things.{e['selector']}"}
